@@ -190,6 +190,13 @@ def shard(cname, dt, delayk, mode, tol_k, ob_kind, B, T, via="ctor", shape=(2,))
                     sy = build(cname, dt, dt if delay != dt else 2 * dt, mode, tol, cur_ob, spk_ob, B, ip)
                     sy.delay = delay
                     syns.append(sy)
+                elif via == "delay-setter-near":
+                    # reassigned to a maximum delay that needs the same number of stored steps (2.5 dt <- 3 dt, 1 dt <- 0.5 dt)
+                    k = delay / dt
+                    start = math.ceil(k) * dt if k != int(k) else delay - dt / 2
+                    sy = build(cname, dt, start, mode, tol, cur_ob, spk_ob, B, ip)
+                    sy.delay = delay
+                    syns.append(sy)
                 else:
                     sy = build(cname, 2 * dt, delay, mode, tol, cur_ob, spk_ob, B, ip)
                     sy.dt = dt
@@ -323,6 +330,7 @@ def run(rep):
                                     jobs.append((shard, (cname, dt, delayk, mode, tol_k, "mixed2", B, T)))
                                 if B == 1 and ob == "cfg" and tol_k == 0.0 and mode == "previous" and delayk in (1.0, 2.5):
                                     jobs.append((shard, (cname, dt, delayk, mode, tol_k, ob, B, T, "delay-setter")))
+                                    jobs.append((shard, (cname, dt, delayk, mode, tol_k, ob, B, T, "delay-setter-near")))
                                     jobs.append((shard, (cname, dt, delayk, mode, tol_k, ob, B, T, "dt-setter")))
     tally = run_shards(jobs, seed=rep.seed)
     rep.tally.merge(tally)
